@@ -63,3 +63,11 @@ chk(
     "runtime monitoring: pass-boundary capture plus enumeration of the generated address streams on an abstract streamer, compared step by step with the scheduled element stream",
     "DESIGN.md section 3 C02",
 )
+chk(
+    "C11",
+    "translation_validation",
+    "(a) the size computation emitted by the real memref-to-snax for allocations of generated layouts (none / tiled-strided with gaps, offsets, dynamic bounds) is interpreted with runtime sizes and compared with the highest address of an independent reference layout function; (b) functions with several allocations, views and nested uses are allocated by the real snax-allocate (static, minimalloc, auto) and then executed: from the trace of buffer uses, buffers whose address ranges intersect must not have interleaved lifetimes, nothing is used after an inserted dealloc, every pointer is aligned and inside the memory window.",
+    TB + "reference layout function; the absent third-party minimalloc solver is replaced by an adversarial maximally-reusing reference stand-in (vf/stubs/minimalloc.py, self-tested against the upstream expectation): the repo's lifetime computation, alignment/capacity handling and address materialisation are what is monitored, not the solver.",
+    "runtime monitoring: interpretation of emitted size code; execution trace of buffer uses checked offline for overlap of live address ranges (hostile allocator)",
+    "DESIGN.md section 3 C11",
+)
